@@ -1086,3 +1086,62 @@ Lemma log_head_slice_refuted_lemma :
   let t := append (of_codes (repeat 35 63)) (of_codes [195; 164]) in
   slen t = 65 /\ log_head t = Panic /\ log_head (of_codes (repeat 35 64)) = Ok (of_codes (repeat 35 64)).
 Proof. repeat split; vm_compute; reflexivity. Qed.
+
+(* ------------------------------------------------------------------ write() replaces the file *)
+Lemma write_then_read_lemma st fs : fs_get (store_write st fs) (st_cache_path st) = Some (st_mem st).
+Proof. unfold store_write. rewrite fs_get_set, String.eqb_refl. reflexivity. Qed.
+
+(* in particular an empty store written over a populated file leaves an empty cache, which loads as empty *)
+Lemma write_empty_wipes_lemma cfg now st fs :
+  st_mem st = [] -> st_cache_path st = st_cfg_path st ->
+  store_load cfg now st (store_write st fs) = Some [].
+Proof.
+  intros E P. unfold store_load. rewrite <- P, write_then_read_lemma, E.
+  unfold perform_cleanup, clean_peers, try_remove_oldest. cbn [map filter]. destruct (_ <? _); reflexivity.
+Qed.
+
+Lemma write_skip_empty_refuted_lemma :
+  exists st fs, st_mem st = [] /\
+    fs_get (store_write_skip_empty st fs) (st_cache_path st) <> Some [] /\
+    fs_get (store_write st fs) (st_cache_path st) = Some [].
+Proof.
+  exists (store_new "p"), [("p"%string, [(pB, [mk 6 1 pB 1 0 990])])].
+  split; [reflexivity|]. split; [vm_compute; discriminate | vm_compute; reflexivity].
+Qed.
+
+(* ------------------------------------------------------------------ one write() = stream into a private temporary, then rename *)
+Definition sconcat (chunks : list string) : string := fold_right append EmptyString chunks.
+Definition write_steps (w : nat) (chunks : list string) : list fs_step := map (WriteChunk w) chunks ++ [Commit w].
+
+Lemma append_nil_r s : append s EmptyString = s.
+Proof. induction s as [|c r IH]; cbn; congruence. Qed.
+
+Lemma append_assoc3 a b c : append (append a b) c = append a (append b c).
+Proof. induction a as [|x r IH]; cbn; congruence. Qed.
+
+Lemma run_writes w chunks : forall st,
+  target (run_fs st (map (WriteChunk w) chunks)) = target st /\
+  temp_of (temps (run_fs st (map (WriteChunk w) chunks))) w = append (temp_of (temps st) w) (sconcat chunks).
+Proof.
+  unfold run_fs. induction chunks as [|c t IH]; intros st; cbn [map fold_left sconcat fold_right].
+  - split; [reflexivity | rewrite append_nil_r; reflexivity].
+  - destruct (IH (fs_do st (WriteChunk w c))) as [T P]. split.
+    + rewrite T. reflexivity.
+    + rewrite P. cbn [fs_do temps]. rewrite temp_of_set_temp, Nat.eqb_refl, append_assoc3. reflexivity.
+Qed.
+
+(* whether the file is absent (init = None) or present, at every instant of a write the target is either still the
+   initial content or already the complete new text: there is no state with an empty or partial file *)
+Lemma single_write_atomic_lemma init w chunks k :
+  let st := run_fs (fresh_fs init) (firstn k (write_steps w chunks)) in
+  target st = init \/ target st = Some (sconcat chunks).
+Proof.
+  cbn zeta. unfold write_steps.
+  destruct (Nat.le_gt_cases k (List.length (map (WriteChunk w) chunks))) as [L|L].
+  - left. rewrite firstn_app. replace (k - List.length (map (WriteChunk w) chunks))%nat with 0%nat by lia.
+    cbn [firstn]. rewrite app_nil_r. rewrite firstn_map.
+    destruct (run_writes w (firstn k chunks) (fresh_fs init)) as [T _]. exact T.
+  - right. rewrite firstn_all2 by (rewrite app_length; cbn; lia).
+    rewrite run_fs_snoc. cbn [fs_do target].
+    destruct (run_writes w chunks (fresh_fs init)) as [_ P]. rewrite P. reflexivity.
+Qed.
